@@ -66,8 +66,8 @@ PROPS = {
                        "the lines): block decomposition / hull / admissible merge reasons, order and disjointness, cover and uniqueness, linux-gate "
                        "naming, system range inside the hull; the model is compared with the real aggregate on every generated map and the same "
                        "decidable predicates are evaluated on the implementation's output. DumperInit_* (Theorems/DumperInit.lean): the dumper's own list over any history of init() calls — a permutation of the aggregation of the last map read (the entry-point swap), every line in exactly one mapping, and put in address order it is that aggregation (all predicates); the one source fact used, that enumerate_mappings assigns the list rather than extending it, is regenerated from the source (Src.enumerateMappingsReplaces). C13_layout (Theorems/SystemLayout.lean): the aggregation of a well-formed map satisfies the layout hypothesis (system range inside the hull, system ranges pairwise disjoint, no 64-bit overflow) under which the sanitizer, the stack lookup and the whole gathering are total — what C12 / C06 / C02 assume of the mapping list is what C13 provides.",
-        "extra_theorems": ["C13_layout", "sortedDisjoint_lt", "DumperInit_source_agrees", "swapEntry_perm", "DumperInit_perm", "DumperInit_coveredOnce", "DumperInit_history", "DumperInit_sorted", "DumperInit_predicates"],
-        "extra_modules": ["MdwModel.Theorems.SystemLayout", "MdwModel.Theorems.DumperInit"],
+        "extra_theorems": ["C13_layout", "sortedDisjoint_lt", "DumperInit_source_agrees", "swapEntry_perm", "DumperInit_perm", "DumperInit_coveredOnce", "DumperInit_history", "DumperInit_sorted", "DumperInit_predicates", "FoldSameFile_source_agrees", "FoldSameFile_different", "FoldSameFile_same"],
+        "extra_modules": ["MdwModel.Theorems.SystemLayout", "MdwModel.Theorems.DumperInit", "MdwModel.Theorems.FoldSameFile"]
     },
     "C12": {
         "rule": "real sanitize_stack_copy on a synthetic dumper: mapping layouts (0-8 mappings, 1 page … 2^40 bytes, executable or not, straddling "
@@ -243,7 +243,7 @@ PROPS = {
         "expected_tags": ["kind.file", "class.64", "class.32", "endian.be", "header.err", "buildid.note", "buildid.section", "buildid.texthash", "buildid.err",
                           "soname.phdr", "soname.section", "soname.err", "kind.wellformed", "kind.proc", "proc.consistent"],
         "theorem_namespace": "Elf.",
-        "extra_theorems": ["Elf.noteLoop_eq_find", "Elf.ptNoteLoop_eq", "Elf.dynCollect_eq", "Elf.foldl_dynUpd", "Elf.rdInt_lt", "Elf.memRead_ok", "Elf.parseHeader_err"],
+        "extra_theorems": ["Elf.noteLoop_eq_find", "Elf.ptNoteLoop_eq", "Elf.dynCollect_eq", "Elf.foldl_dynUpd", "Elf.rdInt_lt", "Elf.memRead_ok", "Elf.parseHeader_err", "NoteOwner_source_agrees", "NoteOwner_found_is_gnu"],
         "trusted_base": ["goblin 0.9.3 / scroll 0.12 parsing rules as transcribed in Model/Elf.lean (header, program/section headers, Dyn, notes) — "
                          "tied to the real crates by the correspondence runs only",
                          "core::str::lossy (Utf8Chunks) transcribed case by case", "binutils readelf as the independent reader on installed files"],
@@ -258,6 +258,7 @@ PROPS = {
                        "the first GNU/NT_GNU_BUILD_ID note of the PT_NOTE segments as an independent note lister finds it, serialiser round trips for the build-id "
                        "note (every descriptor, every list of preceding notes, every tail) and for the SONAME (every leading dynamic entries, string table, tail), the fall-back id is the column-wise XOR of the hashed range, "
                        "the SONAME equals the string at the last DT_SONAME offset of the dynamic table as an independent lister finds it.",
+        "extra_modules": ["MdwModel.Theorems.NoteOwner"]
     },
     "C08": {
         "rule": "live dumps of targets that load 1 … 4 generated module files (ELF images built from a specification: 32/64 bit, either byte order, with / "
@@ -282,8 +283,8 @@ PROPS = {
                        "E2E_module_in_image (Theorems/EndToEnd.lean) carries this into the whole-image model: for a dump whose module content is this module "
                        "list, every such mapping has a record in the image's module-list stream (directory slot 1, counting exactly the gathered modules) with "
                        "its base, size, CodeView record (ELF signature ‖ identifier) at the location the record names and the name string behind it. System_module (Theorems/System.lean): the same for the request as one function from the observed target state to the image.",
-        "extra_modules": ["MdwModel.Theorems.EndToEnd", "MdwModel.Theorems.System"],
-        "extra_theorems": ["E2E_module_in_image", "System_module"],
+        "extra_modules": ["MdwModel.Theorems.EndToEnd", "MdwModel.Theorems.System", "MdwModel.Theorems.FoldSameFile"],
+        "extra_theorems": ["E2E_module_in_image", "System_module", "FoldSameFile_source_agrees", "FoldSameFile_different", "FoldSameFile_same"]
     },
     "C17": {
         "rule": "live: MemReader::for_virtual_mem / for_file / for_ptrace and the reader without a chosen strategy (MemReader::new, what copy_from_process uses; target ptrace-stopped) on ranges inside, ending exactly at, and crossing the end of "
